@@ -10,7 +10,7 @@ CHECKS = {
          "Trusts the harness bridge `Live` (dispatches every node to the real desert impl of the concrete type) and chrono/bigdecimal value constructors; TZ=UTC pinned.", "5.1"),
  "C02": ("E2+E3", "translation_validation", "translation validation of the derive macro: generated declarations compiled with the real macro, differential against an independent interpretation of the declaration (reference encoder / decoder) and against the run-time interpreter",
          "163 generated declarations (all versions of 36 evolution histories, 12 enum families, specials incl. recursion and the 254-step limit) are compiled with the real derive macro; for generated values the derived codec must round-trip, produce byte for byte what the documented field-by-field procedure produces (reference encoder interpreting the declaration), read reference encodings in other legal forms, and agree with the E3 interpreter. Programs are sampled (bounded shapes), values are generated: exploration of the program space, exact comparison per program.",
-         "The model interprets the declaration; the compiled code is the macro's output; they share only the declaration. Declarations are bounded (<= 6 initial fields, <= 6 steps compiled).", "5.2"),
+         "The model interprets the declaration; the compiled code is the macro's output; they share only the declaration. Declarations are bounded (<= 6 initial fields, <= 6 steps compiled; hand-written ones add 130/200-field records, names removed and added again, the 254-step limit). Known finding F24 (an alias of Option under FieldMadeOptional) is re-exhibited by a witness on every run.", "5.2"),
  "C03": ("E3", "exploration", "property-based testing over generated evolution histories (legal by construction) x all writer/reader version pairs, logical-level oracle",
          "Histories of evolution steps are generated from selector specs and built so that every one is legal; each (history, writer version, reader version, value, placement) case is executed through the real AdtSerializer/AdtDeserializer and compared with the documented outcome computed on the logical level (defaults, wrap/unwrap, absent-if-optional, the two specific errors with field names), including that sibling data after the record is intact.",
          "Trusts the run-time interpreter that drives AdtSerializer/AdtDeserializer like the derive expansion (validated against the real expansion by C02's compiled declarations) and DESIGN section 9 for the excluded combination. Known finding F17 (string ids of header names across versions) is recognised by an exact per-case criterion, counted and re-exhibited on every run.", "5.3"),
